@@ -85,8 +85,8 @@ dst_ty!(D4E1, 4, E1);
 dst_ty!(D4E4, 4, E4);
 dst_ty!(D4E24, 4, E24);
 
-fn cast_one<T: MaybeDynSized<Header = TagHeader> + ?Sized>(ctx: &Ctx, size: u32, tail_len: impl Fn(&T) -> usize) -> String {
-    let occ = ((size as usize).max(8) + 7) / 8 * 8;
+fn cast_one<T: MaybeDynSized<Header = TagHeader> + ?Sized>(ctx: &Ctx, size: u32, extra: usize, tail_len: impl Fn(&T) -> usize) -> String {
+    let occ = ((size as usize).max(8) + 7) / 8 * 8 + 8 * extra;
     let mut bytes = vec![0xEEu8; occ];
     bytes[0..4].copy_from_slice(&0x1234u32.to_le_bytes());
     bytes[4..8].copy_from_slice(&size.to_le_bytes());
@@ -103,14 +103,15 @@ fn cast_one<T: MaybeDynSized<Header = TagHeader> + ?Sized>(ctx: &Ctx, size: u32,
 /// CAST <type code> <tag size>
 pub fn cast_case(ctx: &Ctx, t: &[&str]) -> String {
     let size: u32 = t[2].parse().unwrap();
+    let extra: usize = t.get(3).map(|x| x.parse().unwrap()).unwrap_or(0);
     macro_rules! s {
         ($ty:ty) => {
-            cast_one::<$ty>(ctx, size, |_| 0)
+            cast_one::<$ty>(ctx, size, extra, |_| 0)
         };
     }
     macro_rules! d {
         ($ty:ty) => {
-            cast_one::<$ty>(ctx, size, |x| x.tail.len())
+            cast_one::<$ty>(ctx, size, extra, |x| x.tail.len())
         };
     }
     match t[1] {
